@@ -349,8 +349,14 @@ Definition self_canonical (canon : path -> option path) (p : path) : option path
   | None => None
   end.
 
-Definition in_canonical_set (canon : path -> option path) (cs : list path) (f : path) : bool :=
+(* a scanned or listed path is compared under its own name only: one that is a symbolic link, or is
+   spelled through a linked directory, resolves elsewhere and is dropped as well (fix D190; before it the
+   resolved name was looked up, [resolves_into]) *)
+Definition resolves_into (canon : path -> option path) (cs : list path) (f : path) : bool :=
   match canon f with Some c => mem_path c cs | None => false end.
+
+Definition in_canonical_set (canon : path -> option path) (cs : list path) (f : path) : bool :=
+  match self_canonical canon f with Some c => mem_path c cs | None => false end.
 
 Definition filter_by_set (canon : path -> option path) (files set : list path) : list path :=
   filter (in_canonical_set canon (filter_map (self_canonical canon) set)) files.
